@@ -249,6 +249,10 @@ func (c16) Case(c *core.Ctx) {
 		if x0, e0 := mxj.Map(content).Xml(); e0 == nil {
 			blk := autoBlock(r)
 			content["pad"] = strings.Repeat("p", 1+(blk-len(x0)%blk)%blk)
+			if r.Intn(3) == 0 {
+				// ... or one byte more, the last character being a two-byte rune that straddles the boundary
+				content["pad"] = strings.Repeat("p", (blk-len(x0)%blk)%blk) + "é"
+			}
 			c.Count("output-multiple-of-4096")
 		}
 	}
